@@ -268,7 +268,7 @@ impl Prop for PTime {
             return json!({"mode": "clock", "margin_ms": 500 + rng.below(300), "sleep_ms": 1300 + rng.below(400), "n": rng.below(3)});
         }
         // offsets into the past (seconds, nanoseconds) for the four settable timestamps
-        let mut off = |rng: &mut Rng| -> Value {
+        let off = |rng: &mut Rng| -> Value {
             let unit = *rng.pick(&[60i64, 86400]);
             let k = rng.below(6) as i64;
             let (s, n) = match rng.below(6) {
